@@ -21,7 +21,7 @@ func init() {
 			return evid.Spec{ID: "C06", Level: "model_checking", Exhaustive: true,
 				Rule: "plane 1: every flag octet x every odd sequence number for one (type, minor, session); plane 2: type{1,2,3} x minor{0,1} x 6 session ids x flags{0,1,4,5,0xfe,0xff} x seq{1,3,127,253,255}; " +
 					"each crossed with reply bodies {authentication minimal, RESTART, 300 B, authorization with arguments, accounting, 65536-byte body}; plane 3: multi-packet chains of depth <= 3 " +
-					"(seq s, s+2, s+4 via registered continuations, s in {1,3,249,251,253}) over type x minor x flags{0,1,4,0xff}; plane 5: typed replies sweeping every value of their leading octets (accounting server_msg/data lengths 256k+3, k, authorization argument counts 0..255, every authentication status x sizes); plane 8: a client that stops reading before its first reply is written and resumes later (a write against an armed write deadline ends in a timeout after a partial write, as on a socket), then a second request: the stream stays a sequence of whole, correctly announced packets; plane 7: handlers whose first one or two replies cannot be encoded (nothing written) and that fall back to another reply, alone and inside continued exchanges, type x minor x flags{0,1,4} x seq{1,3,251,253,255}; plane 6: three requests on one connection (a continued session and another session) over all triples of flag octets {0,4,1,5,0xfa}. Raw reply octets are compared with the model: same version octet, type, flag octet, " +
+					"(seq s, s+2, s+4 via registered continuations, s in {1,3,249,251,253}) over type x minor x flags{0,1,4,0xff}; plane 5: typed replies sweeping every value of their leading octets (accounting server_msg/data lengths 256k+3, k, authorization argument counts 0..255, every authentication status x sizes); plane 9: a handler that keeps its Response and answers only after another request (other session, type, version, flag octet) has been read and answered on the connection - the late reply mirrors its own request; plane 8: a client that stops reading before its first reply is written and resumes later (a write against an armed write deadline ends in a timeout after a partial write, as on a socket), then a second request: the stream stays a sequence of whole, correctly announced packets; plane 7: handlers whose first one or two replies cannot be encoded (nothing written) and that fall back to another reply, alone and inside continued exchanges, type x minor x flags{0,1,4} x seq{1,3,251,253,255}; plane 6: three requests on one connection (a continued session and another session) over all triples of flag octets {0,4,1,5,0xfa}. Raw reply octets are compared with the model: same version octet, type, flag octet, " +
 					"session id, seq+1 (1 on RESTART), length field == bytes that follow, body == cleartext XOR reference pad iff the request's unencrypted bit was clear, nothing for request 255, never seq 0. " +
 					"states = distinct (request header class, reply kind) model states; transitions = requests executed; traces = chains fully agreed",
 				Assumptions: []string{"handlers are scripted (library flavour); the reference server's own handlers are covered by C07"}}
@@ -256,6 +256,22 @@ func c06Run(c *Ctx) {
 			}
 		}
 	}
+	// plane 9: a handler that answers later, after another request has been read and answered
+	for _, ta := range []byte{1, 2, 3} {
+		job++
+		if !c.Mine(job) {
+			continue
+		}
+		for _, tb := range []byte{1, 2, 3} {
+			for _, fa := range []byte{0, 1, 4} {
+				for _, fb := range []byte{0, 1, 5} {
+					for _, rp := range []string{"min", "300", "author"} {
+						c06Deferred(c, w, ta, tb, fa, fb, rp)
+					}
+				}
+			}
+		}
+	}
 	// plane 8: a client that stops reading before its first reply and resumes later
 	for _, typ := range []byte{1, 2, 3} {
 		job++
@@ -405,6 +421,71 @@ func c06Slow(c *Ctx, w *lworld, typ, ver, fl byte, reply string, next bool) {
 	c.R.Trace()
 }
 
+// c06Deferred: the handler of request A keeps its Response and answers only after request B - another session, another
+// type, version and flag octet - has been read and answered on the same connection. A's reply still mirrors A.
+func c06Deferred(c *Ctx, w *lworld, ta, tb, fa, fb byte, reply string) {
+	w.reset()
+	lc, err := w.open()
+	if err != nil {
+		c.Abort("hang", err.Error(), nil)
+	}
+	defer func() {
+		if !lc.C.Closed() {
+			lc.C.FeedEOF()
+		}
+	}()
+	cs := map[string]interface{}{"deferred_reply": true, "type_a": ta, "type_b": tb, "flags_a": fa, "flags_b": fb, "reply": reply}
+	c.R.Eval()
+	c.Cur(cs)
+	c.R.Distinct(evid.Hash("deferred", ta, tb, fa, fb, reply))
+	ha := ref.Header{Version: 0xc0, Type: ta, Seq: 1, Flags: fa, Session: 0xa5a5a5a5}
+	hb := ref.Header{Version: 0xc1, Type: tb, Seq: 3, Flags: fb, Session: 0xb2b2b2b2}
+	ra, err := w.deliver(lc, ref.Packet(ha, w.Key, minimalRequest(ta)), lAction{Action: ref.Action{Reply: true}, Body: c06Body(reply), Defer: true})
+	if err != nil {
+		c.Abort("hang", err.Error(), cs)
+	}
+	rb, err := w.deliver(lc, ref.Packet(hb, w.Key, minimalRequest(tb)), lAction{Action: ref.Action{Reply: true}, Body: c06Body("min")})
+	if err != nil {
+		c.Abort("hang", err.Error(), cs)
+	}
+	c.R.Trans(2)
+	if !w.fireDeferred() {
+		return
+	}
+	late := lc.C.Take()
+	fail := func(what string) {
+		c.R.Violate("deferred/"+firstWord(what), fmt.Sprintf("handler of request %+v answers (%s) after request %+v was read and answered: %s", ha, reply, hb, what), cs)
+	}
+	if len(ra.Out) != 0 {
+		fail("bytes were written for A before its handler answered")
+		return
+	}
+	check := func(name string, out []byte, h ref.Header, body []byte) bool {
+		pk, rest := parseOut(out)
+		if len(pk) != 1 || len(rest) != 0 {
+			fail(fmt.Sprintf("%s: %d packets and %d stray bytes", name, len(pk), len(rest)))
+			return false
+		}
+		want := ref.Header{Version: h.Version, Type: h.Type, Seq: h.Seq + 1, Flags: h.Flags, Session: h.Session, Length: uint32(len(body))}
+		wb := body
+		if h.Flags&1 == 0 {
+			wb = ref.Obfuscate(want, w.Key, body)
+		}
+		if pk[0].H != want {
+			fail(fmt.Sprintf("%s carries header %+v, its request asks for %+v", name, pk[0].H, want))
+			return false
+		}
+		if string(pk[0].Body) != string(wb) {
+			fail(name + ": body is not the handler's reply under its own request's header (obfuscation follows the request's flag)")
+			return false
+		}
+		return true
+	}
+	if check("the reply to B", rb.Out, hb, c06BodyBytes("min")) && check("the late reply to A", late, ha, c06BodyBytes(reply)) {
+		c.R.Trace()
+	}
+}
+
 func c06BodyBytes(kind string) []byte {
 	b, err := c06Body(kind).MarshalBinary()
 	if err != nil {
@@ -469,6 +550,18 @@ func c06Replay(c *Ctx, raw json.RawMessage) {
 		Flags byte   `json:"flags"`
 		Reply string `json:"reply"`
 		Next  bool   `json:"next"`
+	}
+	var dfr struct {
+		D     bool   `json:"deferred_reply"`
+		TA    byte   `json:"type_a"`
+		TB    byte   `json:"type_b"`
+		FA    byte   `json:"flags_a"`
+		FB    byte   `json:"flags_b"`
+		Reply string `json:"reply"`
+	}
+	if json.Unmarshal(raw, &dfr) == nil && dfr.D {
+		c06Deferred(c, w, dfr.TA, dfr.TB, dfr.FA, dfr.FB, dfr.Reply)
+		return
 	}
 	if json.Unmarshal(raw, &slow) == nil && slow.Slow {
 		c06Slow(c, w, slow.Type, slow.Ver, slow.Flags, slow.Reply, slow.Next)
